@@ -124,6 +124,10 @@ class Ctx:
             return VAst(VNode(t))
         if k == 'pyval':
             return VPy(t)
+        if k == 'elem':
+            return VElem(t)
+        if k == 'elemlist':
+            return VElemList(t)
         if k == 'seq':
             return VSeq(t, kind[1])
         raise OutOfReach(f'val_of {kind}')
